@@ -644,6 +644,9 @@ def check_c01(ctx, rep, tier):
     rep.floor("overflow-checked arithmetic sites in kernels (PROFILE)", n, 27)
     counts = run_fwd(ctx, rep, ops=("Add", "Sub", "Mul"))
     _fwd_floor(rep, counts, "+ - *", 350, 12)
+    n = run_generic(ctx, rep, "UNWRAP", unwrap.sites, configs=("dbg",),
+                    select=lambda b, k: b.trait in ("Add", "Sub", "Mul", "AddAssign", "SubAssign", "MulAssign"))
+    rep.floor("integer-lifting unwraps in + - * forms", n, 62)
     run_generic(ctx, rep, "LEN", f2.length_effects, select=lambda b, k: b.trait in ("AddAssign", "SubAssign", "Mul", "MulAssign"))
     run_defs(ctx, rep, "BIT_UNIT", "Constants", "get_int", "int_len", "capacity_from_bit_len", floor=38)
     rep.not_decided += ["that the kernels compute the right digits (value-level)", "u128::wmul (no sibling copy to compare with)",
@@ -678,6 +681,9 @@ def check_c04(ctx, rep, tier):
                 select=lambda b, k: b.trait in BIT_KERNEL_TRAITS, memo_key="used")
     counts = run_fwd(ctx, rep, ops=("BitAnd", "BitOr", "BitXor", "Not"))
     _fwd_floor(rep, counts, "& | ^ !", 288, 15)
+    n = run_generic(ctx, rep, "UNWRAP", unwrap.sites, configs=("dbg",),
+                    select=lambda b, k: b.trait in ("BitAnd", "BitOr", "BitXor", "BitAndAssign", "BitOrAssign", "BitXorAssign"))
+    rep.floor("integer-lifting unwraps in & | ^ forms", n, 39)
     run_generic(ctx, rep, "LEN", f2.length_effects, select=lambda b, k: b.trait in BIT_KERNEL_TRAITS)
     run_defs(ctx, rep, "BIT_UNIT", "get_int", "int_len", "capacity_from_bit_len", "ZERO", floor=14)
     rep.not_decided += ["alignment of rhs words across different word sizes (get_int re-chunking, value-level)"]
@@ -916,6 +922,8 @@ def check_c19(ctx, rep, tier):
 def check_c20(ctx, rep, tier):
     counts = run_fwd(ctx, rep)
     _fwd_floor(rep, counts, "all", 1178, 63)
+    n = run_generic(ctx, rep, "UNWRAP", unwrap.sites, configs=("dbg",), select=lambda b, k: b.trait in fwd.OP_TRAITS)
+    rep.floor("integer-lifting unwraps in operator forms", n, 173)
     n = run_generic(ctx, rep, "SIB", f2.byref_twins)
     rep.floor("separately written by-reference twins", n, 13)
     n = run_generic(ctx, rep, "SAFE", f2.safe_facts)
